@@ -9,6 +9,10 @@
 
 #include <sstream>
 
+#if defined(VF_GROUP) && VF_GROUP == 4
+#include <covfie/cuda/backend/primitive/cuda_device_array.hpp>
+#endif
+
 #ifndef VF_GROUP
 #define VF_GROUP 0
 #endif
@@ -391,6 +395,83 @@ struct Stack {
     }
 };
 
+#if VF_GROUP == 4
+// host array -> CUDA device array storage, exercised on the host under the runtime shim (reduced assurance)
+template <size_t N, class T, size_t M>
+struct ToDevice {
+    using IV = cv::vector_d<std::size_t, N>;
+    using A = cb::array<cv::vector_d<T, M>>;
+    using D = cb::cuda_device_array<cv::vector_d<T, M>>;
+    using B1 = cb::strided<IV, A>;
+    using B2 = cb::strided<IV, D>;
+    static std::string name() { return std::string("convert/strided<array> -> strided<cuda_device_array> (host shim)/N=") + std::to_string(N) + "/T=" + tname<T>() + "/M=" + std::to_string(M); }
+    static Verdict run(const Case & c)
+    {
+        covfie::field<B1> src = Conv<Lay::strided, Lay::strided, N, T, M>::template build<B1>(c.ext);
+        {
+            typename covfie::field<B1>::view_t v(src);
+            for_box(c.ext, [&](const std::vector<uint64_t> & cc) {
+                typename covfie::field<B1>::coordinate_t x;
+                for (size_t k = 0; k < N; ++k) {
+                    x[k] = cc[k];
+                }
+                auto & r = v.at(x);
+                uint64_t rk = uint64_t(ref::row_major(cc, c.ext));
+                for (size_t j = 0; j < M; ++j) {
+                    r[j] = content<T>(c.seed, rk * M + j);
+                }
+            });
+        }
+        const std::string d0 = dump_of(src);
+        covfie::field<B2> dev(src);
+        if (dump_of(src) != d0) {
+            return std::string("the host field changed during the conversion to device storage");
+        }
+        auto cfg = dev.backend().get_configuration();
+        typename covfie::field<B2>::view_t dv(dev);
+        Verdict bad;
+        for (size_t k = 0; k < N; ++k) {
+            if (cfg[k] != c.ext[k]) {
+                return "device field reports extent " + std::to_string(cfg[k]) + " on axis " + std::to_string(k);
+            }
+        }
+        for_box(c.ext, [&](const std::vector<uint64_t> & cc) {
+            if (bad) {
+                return;
+            }
+            typename covfie::field<B2>::coordinate_t x;
+            for (size_t k = 0; k < N; ++k) {
+                x[k] = cc[k];
+            }
+            auto & r = dv.at(x);
+            uint64_t rk = uint64_t(ref::row_major(cc, c.ext));
+            for (size_t j = 0; j < M; ++j) {
+                if (bits_of(r[j]) != bits_of(content<T>(c.seed, rk * M + j))) {
+                    bad = "device field holds " + bits_hex(r[j]) + " at " + cstr(cc) + ", the host field held " + bits_hex(content<T>(c.seed, rk * M + j));
+                    return;
+                }
+            }
+        });
+        Hasher h;
+        h.vec(c.ext).pod(c.seed);
+        label("host array -> device array under the CUDA runtime shim");
+        record(name(), true, h.h, [&] { return c.to_json(); });
+        return bad;
+    }
+    static void campaign()
+    {
+        const uint64_t ms = N == 1 ? 500 : N == 2 ? 60 : N == 3 ? 14 : 7;
+        rc_campaign<Case>(
+            name(), tier(150, 5000), 100, rc::gen::map(rc::gen::pair(gen_extents(N, ms), rc::gen::arbitrary<uint64_t>()), [](std::pair<std::vector<uint64_t>, uint64_t> t) { return Case{t.first, t.second, false, {}}; }), run
+        );
+    }
+    static void reg()
+    {
+        add_inst(name(), campaign, [](const json & j) { return run(Case::from_json(j)); });
+    }
+};
+#endif
+
 template <size_t N, class T1, size_t M1, class T2, size_t M2>
 void reg_pairs_no_hilbert()
 {
@@ -431,6 +512,11 @@ void register_all()
     Stack<Ip::lin, Lay::strided, Ip::lin, Lay::strided, 1, double, 3>::reg();
     Stack<Ip::nn, Lay::morton_port, Ip::lin, Lay::morton_bmi2, 4, float, 1>::reg();
     Stack<Ip::nn, Lay::strided, Ip::lin, Lay::strided, 3, float, 3>::reg();
+#elif VF_GROUP == 4
+    ToDevice<1, float, 1>::reg();
+    ToDevice<2, double, 2>::reg();
+    ToDevice<3, float, 3>::reg();
+    ToDevice<4, double, 4>::reg();
 #endif
 }
 }   // namespace
